@@ -112,6 +112,19 @@ Proof.
   all: right; right; split; [reflexivity|]; intro t0; proj; upds; proj; eauto.
 Qed.
 
+Lemma step_shape2 s a s' : step s a = Some s' ->
+   (exists t l k, a = Lock t l k /\ alive (T s t) = true /\ kind_ok ismutex l k = true /\ available (L s l) k = true /\ s' = lock_st s t l k)
+   \/ (exists t g0, (a = DropG t (gid g0) \/ a = UnwDrop t (gid g0)) /\ find_g (gid g0) (held (T s t)) = Some g0 /\
+                    In g0 (held (T s t)) /\ s' = do_drop isco s t g0)
+   \/ (L s' = L s /\ (forall t0, held (T s' t0) = held (T s t0) \/ exists i d, held (T s' t0) = move_g i d (held (T s t0))) /\
+       match a with Lock _ _ _ | DropG _ _ | UnwDrop _ _ => False | _ => True end).
+Proof.
+  intro H. step_inv H; bools.
+  1: left; eauto 10.
+  1, 10: right; left; match goal with F : find_g _ _ = Some _ |- _ => pose proof F as F0; apply find_g_some in F; destruct F as [F1 F2]; subst end; eauto 10.
+  all: right; right; split; [reflexivity|]; split; [|exact Logic.I]; intro t0; proj; upds; proj; eauto.
+Qed.
+
 Ltac neutral_in HN HG t0 :=
   destruct (HN t0) as [HE|[?i [?d HE]]]; rewrite HE in HG;
   [| apply in_move_g in HG; destruct HG as (?g & HG & ?Eid & ?Elock & ?Ek & ?Epan & ?Eerr)].
